@@ -13,8 +13,14 @@ import (
 	"sort"
 	"strconv"
 	"strings"
+	"sync"
 	"syscall"
 	"time"
+)
+
+var (
+	vfStackMu  sync.Mutex
+	vfStackBuf = make([]byte, 256<<10)
 )
 
 type vfG struct {
@@ -32,14 +38,16 @@ func vfIsHarnessFunc(fn string) bool {
 
 // vfGoroutines parses a full goroutine dump. The first entry is the caller.
 func vfGoroutines() []vfG {
-	buf := make([]byte, 1<<20)
+	vfStackMu.Lock()
+	defer vfStackMu.Unlock()
+	var buf []byte
 	for {
-		n := runtime.Stack(buf, true)
-		if n < len(buf) {
-			buf = buf[:n]
+		n := runtime.Stack(vfStackBuf, true)
+		if n < len(vfStackBuf) {
+			buf = vfStackBuf[:n]
 			break
 		}
-		buf = make([]byte, 2*len(buf))
+		vfStackBuf = make([]byte, 2*len(vfStackBuf))
 	}
 	var out []vfG
 	for _, blk := range strings.Split(string(buf), "\n\n") {
